@@ -388,7 +388,8 @@ def roundtrip(ctx, W, bad):
                         x, y, w, h, al = eff
                         ok = lay is not None and lay[0] == ((float(x), "PERCENT"), (float(y), "PERCENT")) \
                             and (w is None or lay[1] == ((float(w), "PERCENT"), (float(h), "PERCENT"))) \
-                            and (al is None or (lay[3], lay[4]) == al)
+                            and (al is None or all(a_ is None or a_ == b_ for a_, b_ in zip(al, (lay[3], lay[4]))))
+                        # (a component the set leaves open comes back as the TTML default: only the given ones are compared)
                         if not ok:
                             problem = {"cue": k + 1, "character": ch, "layout_after_the_trip": lay, "required": eff}
                             break
